@@ -128,7 +128,8 @@ class C04(Check):
     assumptions = ["behaviour = stdout + exception type of importing every module of the project",
                    "arguments are side-effect free; parameters are not reassigned in the callee (documented limits of rope's inline are inside the space only through the `expr` argument form)"]
     chunksize = 4
-    budget_quick = 200
+    budget_quick = 450
+    budget_thorough = 1200
 
     def bound_text(self, tier):
         return "1-2 call sites per definition" if tier == "quick" else "1-3 call sites (3 sites: constant/name forms only)"
